@@ -88,6 +88,7 @@ static void path_string(Text& t, long pre_idx, const Op* op, const DevVec* dv) {
 	Vec<int32_t> chain; long i = pre_idx;
 	while (i >= 0) { chain.push(static_cast<int32_t>(i)); i = parents[i].idx; }
 	t.add("pf=%d;mf=%u;og=%u;", opt.prefill, opt.mf, opt.og);
+	if (g_nids != N) { t.add("ids="); for (int q = 0; q < g_nids; ++q) t.add("%s%d", q ? "." : "", g_ids[q]); t.add(";"); }
 	if (g_strategy_mode) { t.add("st="); for (int q = 0; q < 2 * N + 1; ++q) t.add("%s%d", q ? "." : "", G.strat[q]); t.add(";"); }
 	t.add("path=");
 	bool first = true;
@@ -136,45 +137,45 @@ void flag(int prop, const char* pred, const Edge& e, const char* fmt, ...) {
 static void build_menus() {
 	for (int root = 0; root < 2; ++root) {
 		Vec<Act>& g = menuGuard[root]; g.clear(); g.push(Act{A_NONE, 0, 0, 0});
-		if (opt.mf & MF_GUARD_REQ) for (int k = 0; k < N; ++k) g.push(Act{A_CHANGE, static_cast<uint8_t>(k), 0, 0});
+		if (opt.mf & MF_GUARD_REQ) for (int k_i = 0, k = g_ids[0]; k_i < g_nids; ++k_i, k = g_ids[k_i < g_nids ? k_i : 0]) g.push(Act{A_CHANGE, static_cast<uint8_t>(k), 0, 0});
 #if VX_PAYLOAD
-		if ((opt.mf & MF_GUARD_REQ) && (opt.mf & MF_PAYLOAD)) for (int k = 0; k < N; ++k) { g.push(Act{A_CHANGEW, static_cast<uint8_t>(k), 0, 1}); if (opt.mf & MF_PAYLOAD2) g.push(Act{A_CHANGEW, static_cast<uint8_t>(k), 0, 2}); }
+		if ((opt.mf & MF_GUARD_REQ) && (opt.mf & MF_PAYLOAD)) for (int k_i = 0, k = g_ids[0]; k_i < g_nids; ++k_i, k = g_ids[k_i < g_nids ? k_i : 0]) { g.push(Act{A_CHANGEW, static_cast<uint8_t>(k), 0, 1}); if (opt.mf & MF_PAYLOAD2) g.push(Act{A_CHANGEW, static_cast<uint8_t>(k), 0, 2}); }
 #endif
 #if VX_PLANS
 		if ((opt.mf & MF_GUARD_REPORT) && !root) { g.push(Act{A_SUCCEED, 0, 0, 0}); g.push(Act{A_FAIL, 0, 0, 0}); }
 #endif
 		if (opt.mf & MF_GUARD_CANCEL) g.push(Act{A_CANCEL, 0, 0, 0});
 #if VX_PAYLOAD
-		if ((opt.mf & MF_GUARD_REQ) && (opt.mf & MF_GUARD_CANCEL) && (opt.mf & MF_PAYLOAD)) for (int k = 0; k < N; ++k) g.push(Act{A_CANCEL_CHANGEW, static_cast<uint8_t>(k), 0, 2});
+		if ((opt.mf & MF_GUARD_REQ) && (opt.mf & MF_GUARD_CANCEL) && (opt.mf & MF_PAYLOAD)) for (int k_i = 0, k = g_ids[0]; k_i < g_nids; ++k_i, k = g_ids[k_i < g_nids ? k_i : 0]) g.push(Act{A_CANCEL_CHANGEW, static_cast<uint8_t>(k), 0, 2});
 #endif
-		if ((opt.mf & MF_COMPOSITE) && (opt.mf & MF_GUARD_REQ) && (opt.mf & MF_GUARD_CANCEL)) for (int k = 0; k < N; ++k) g.push(Act{A_CHANGE_CANCEL, static_cast<uint8_t>(k), 0, 0});
-		if ((opt.mf & MF_COMPOSITE) && (opt.mf & MF_GUARD_REQ)) for (int a = 0; a < N; ++a) for (int b = 0; b < N; ++b) if (a != b) g.push(Act{A_CHANGE2, static_cast<uint8_t>(a), static_cast<uint8_t>(b), 0});
+		if ((opt.mf & MF_COMPOSITE) && (opt.mf & MF_GUARD_REQ) && (opt.mf & MF_GUARD_CANCEL)) for (int k_i = 0, k = g_ids[0]; k_i < g_nids; ++k_i, k = g_ids[k_i < g_nids ? k_i : 0]) g.push(Act{A_CHANGE_CANCEL, static_cast<uint8_t>(k), 0, 0});
+		if ((opt.mf & MF_COMPOSITE) && (opt.mf & MF_GUARD_REQ)) for (int a_i = 0, a = g_ids[0]; a_i < g_nids; ++a_i, a = g_ids[a_i < g_nids ? a_i : 0]) for (int b_i = 0, b = g_ids[0]; b_i < g_nids; ++b_i, b = g_ids[b_i < g_nids ? b_i : 0]) if (a != b) g.push(Act{A_CHANGE2, static_cast<uint8_t>(a), static_cast<uint8_t>(b), 0});
 #if VX_PAYLOAD
-		if ((opt.mf & MF_COMPOSITE) && (opt.mf & MF_GUARD_REQ) && (opt.mf & MF_PAYLOAD)) for (int a = 0; a < N; ++a) for (int b = 0; b < N; ++b) { g.push(Act{A_CHANGEW_CHANGE, static_cast<uint8_t>(a), static_cast<uint8_t>(b), 1}); g.push(Act{A_CHANGE_CHANGEW, static_cast<uint8_t>(a), static_cast<uint8_t>(b), 2}); }
+		if ((opt.mf & MF_COMPOSITE) && (opt.mf & MF_GUARD_REQ) && (opt.mf & MF_PAYLOAD)) for (int a_i = 0, a = g_ids[0]; a_i < g_nids; ++a_i, a = g_ids[a_i < g_nids ? a_i : 0]) for (int b_i = 0, b = g_ids[0]; b_i < g_nids; ++b_i, b = g_ids[b_i < g_nids ? b_i : 0]) { g.push(Act{A_CHANGEW_CHANGE, static_cast<uint8_t>(a), static_cast<uint8_t>(b), 1}); g.push(Act{A_CHANGE_CHANGEW, static_cast<uint8_t>(a), static_cast<uint8_t>(b), 2}); }
 #endif
 		// the hostile replica strategy uses the LAST entry: cancel and redirect
-		if ((opt.mf & MF_GUARD_REQ) && (opt.mf & MF_GUARD_CANCEL)) for (int k = 0; k < N; ++k) g.push(Act{A_CANCEL_CHANGE, static_cast<uint8_t>(k), 0, 0});
+		if ((opt.mf & MF_GUARD_REQ) && (opt.mf & MF_GUARD_CANCEL)) for (int k_i = 0, k = g_ids[0]; k_i < g_nids; ++k_i, k = g_ids[k_i < g_nids ? k_i : 0]) g.push(Act{A_CANCEL_CHANGE, static_cast<uint8_t>(k), 0, 0});
 
 		Vec<Act>& f = menuFull[root]; f.clear(); f.push(Act{A_NONE, 0, 0, 0});
-		if (opt.mf & MF_PHASE_REQ) for (int k = 0; k < N; ++k) f.push(Act{A_CHANGE, static_cast<uint8_t>(k), 0, 0});
+		if (opt.mf & MF_PHASE_REQ) for (int k_i = 0, k = g_ids[0]; k_i < g_nids; ++k_i, k = g_ids[k_i < g_nids ? k_i : 0]) f.push(Act{A_CHANGE, static_cast<uint8_t>(k), 0, 0});
 #if VX_PAYLOAD
-		if ((opt.mf & MF_PHASE_REQ) && (opt.mf & MF_PAYLOAD)) for (int k = 0; k < N; ++k) { f.push(Act{A_CHANGEW, static_cast<uint8_t>(k), 0, 1}); if (opt.mf & MF_PAYLOAD2) f.push(Act{A_CHANGEW, static_cast<uint8_t>(k), 0, 2}); }
+		if ((opt.mf & MF_PHASE_REQ) && (opt.mf & MF_PAYLOAD)) for (int k_i = 0, k = g_ids[0]; k_i < g_nids; ++k_i, k = g_ids[k_i < g_nids ? k_i : 0]) { f.push(Act{A_CHANGEW, static_cast<uint8_t>(k), 0, 1}); if (opt.mf & MF_PAYLOAD2) f.push(Act{A_CHANGEW, static_cast<uint8_t>(k), 0, 2}); }
 #endif
-		if ((opt.mf & MF_COMPOSITE) && (opt.mf & MF_PHASE_REQ)) for (int a = 0; a < N; ++a) for (int b = 0; b < N; ++b) if (a != b) f.push(Act{A_CHANGE2, static_cast<uint8_t>(a), static_cast<uint8_t>(b), 0});
+		if ((opt.mf & MF_COMPOSITE) && (opt.mf & MF_PHASE_REQ)) for (int a_i = 0, a = g_ids[0]; a_i < g_nids; ++a_i, a = g_ids[a_i < g_nids ? a_i : 0]) for (int b_i = 0, b = g_ids[0]; b_i < g_nids; ++b_i, b = g_ids[b_i < g_nids ? b_i : 0]) if (a != b) f.push(Act{A_CHANGE2, static_cast<uint8_t>(a), static_cast<uint8_t>(b), 0});
 #if VX_PAYLOAD
-		if ((opt.mf & MF_COMPOSITE) && (opt.mf & MF_PHASE_REQ) && (opt.mf & MF_PAYLOAD)) for (int a = 0; a < N; ++a) for (int b = 0; b < N; ++b) { f.push(Act{A_CHANGEW_CHANGE, static_cast<uint8_t>(a), static_cast<uint8_t>(b), 1}); f.push(Act{A_CHANGE_CHANGEW, static_cast<uint8_t>(a), static_cast<uint8_t>(b), 2}); }
+		if ((opt.mf & MF_COMPOSITE) && (opt.mf & MF_PHASE_REQ) && (opt.mf & MF_PAYLOAD)) for (int a_i = 0, a = g_ids[0]; a_i < g_nids; ++a_i, a = g_ids[a_i < g_nids ? a_i : 0]) for (int b_i = 0, b = g_ids[0]; b_i < g_nids; ++b_i, b = g_ids[b_i < g_nids ? b_i : 0]) { f.push(Act{A_CHANGEW_CHANGE, static_cast<uint8_t>(a), static_cast<uint8_t>(b), 1}); f.push(Act{A_CHANGE_CHANGEW, static_cast<uint8_t>(a), static_cast<uint8_t>(b), 2}); }
 #endif
 #if VX_PLANS
-		if ((opt.mf & MF_COMPOSITE) && (opt.mf & MF_REPORT) && !root) { f.push(Act{A_FAIL_SUCCEED, 0, 0, 0}); f.push(Act{A_SUCCEED_FAIL, 0, 0, 0}); if (opt.mf & MF_PHASE_REQ) for (int k = 0; k < N; ++k) { f.push(Act{A_SUCCEED_CHANGE, static_cast<uint8_t>(k), 0, 0}); f.push(Act{A_CHANGE_SUCCEED, static_cast<uint8_t>(k), 0, 0}); } }
+		if ((opt.mf & MF_COMPOSITE) && (opt.mf & MF_REPORT) && !root) { f.push(Act{A_FAIL_SUCCEED, 0, 0, 0}); f.push(Act{A_SUCCEED_FAIL, 0, 0, 0}); if (opt.mf & MF_PHASE_REQ) for (int k_i = 0, k = g_ids[0]; k_i < g_nids; ++k_i, k = g_ids[k_i < g_nids ? k_i : 0]) { f.push(Act{A_SUCCEED_CHANGE, static_cast<uint8_t>(k), 0, 0}); f.push(Act{A_CHANGE_SUCCEED, static_cast<uint8_t>(k), 0, 0}); } }
 		if (opt.mf & MF_REPORT) {
 			if (!root) { f.push(Act{A_SUCCEED, 0, 0, 0}); f.push(Act{A_FAIL, 0, 0, 0}); }
-			else for (int k = 0; k < N; ++k) { f.push(Act{A_SUCCEED_ID, static_cast<uint8_t>(k), 0, 0}); f.push(Act{A_FAIL_ID, static_cast<uint8_t>(k), 0, 0}); }
+			else for (int k_i = 0, k = g_ids[0]; k_i < g_nids; ++k_i, k = g_ids[k_i < g_nids ? k_i : 0]) { f.push(Act{A_SUCCEED_ID, static_cast<uint8_t>(k), 0, 0}); f.push(Act{A_FAIL_ID, static_cast<uint8_t>(k), 0, 0}); }
 		}
-		if ((opt.mf & MF_REPORT_OTHER) && !root) for (int k = 0; k < N; ++k) { f.push(Act{A_SUCCEED_ID, static_cast<uint8_t>(k), 0, 0}); f.push(Act{A_FAIL_ID, static_cast<uint8_t>(k), 0, 0}); }
+		if ((opt.mf & MF_REPORT_OTHER) && !root) for (int k_i = 0, k = g_ids[0]; k_i < g_nids; ++k_i, k = g_ids[k_i < g_nids ? k_i : 0]) { f.push(Act{A_SUCCEED_ID, static_cast<uint8_t>(k), 0, 0}); f.push(Act{A_FAIL_ID, static_cast<uint8_t>(k), 0, 0}); }
 		if (opt.mf & MF_PLAN_EDIT) {
-			for (int o = 0; o < N; ++o) for (int d = 0; d < N; ++d) f.push(Act{A_PLAN_CHANGE, static_cast<uint8_t>(o), static_cast<uint8_t>(d), 0});
+			for (int o_i = 0, o = g_ids[0]; o_i < g_nids; ++o_i, o = g_ids[o_i < g_nids ? o_i : 0]) for (int d_i = 0, d = g_ids[0]; d_i < g_nids; ++d_i, d = g_ids[d_i < g_nids ? d_i : 0]) f.push(Act{A_PLAN_CHANGE, static_cast<uint8_t>(o), static_cast<uint8_t>(d), 0});
 #if VX_PAYLOAD
-			if (opt.mf & MF_PAYLOAD) for (int o = 0; o < N; ++o) for (int d = 0; d < N; ++d) f.push(Act{A_PLAN_CHANGEW, static_cast<uint8_t>(o), static_cast<uint8_t>(d), 1});
+			if (opt.mf & MF_PAYLOAD) for (int o_i = 0, o = g_ids[0]; o_i < g_nids; ++o_i, o = g_ids[o_i < g_nids ? o_i : 0]) for (int d_i = 0, d = g_ids[0]; d_i < g_nids; ++d_i, d = g_ids[d_i < g_nids ? d_i : 0]) f.push(Act{A_PLAN_CHANGEW, static_cast<uint8_t>(o), static_cast<uint8_t>(d), 1});
 #endif
 			f.push(Act{A_PLAN_CLEAR, 0, 0, 0});
 		}
@@ -182,7 +183,7 @@ static void build_menus() {
 	}
 	menuLife.clear(); menuLife.push(Act{A_NONE, 0, 0, 0});
 #if VX_PLANS
-	if (opt.mf & MF_LIFE_EDIT) { for (int o = 0; o < N; ++o) for (int d = 0; d < N; ++d) menuLife.push(Act{A_PLAN_CHANGE, static_cast<uint8_t>(o), static_cast<uint8_t>(d), 0}); menuLife.push(Act{A_PLAN_CLEAR, 0, 0, 0}); }
+	if (opt.mf & MF_LIFE_EDIT) { for (int o_i = 0, o = g_ids[0]; o_i < g_nids; ++o_i, o = g_ids[o_i < g_nids ? o_i : 0]) for (int d_i = 0, d = g_ids[0]; d_i < g_nids; ++d_i, d = g_ids[d_i < g_nids ? d_i : 0]) menuLife.push(Act{A_PLAN_CHANGE, static_cast<uint8_t>(o), static_cast<uint8_t>(d), 0}); menuLife.push(Act{A_PLAN_CLEAR, 0, 0, 0}); }
 #endif
 	G.mf = opt.mf;
 }
@@ -190,25 +191,25 @@ static void build_menus() {
 static void build_ops() {
 	ops.clear();
 	auto add = [](uint8_t k, int a = 0, int b = 0, int c = 0) { ops.push(Op{k, static_cast<uint8_t>(a), static_cast<uint8_t>(b), static_cast<uint8_t>(c)}); };
-	if (opt.og & OG_CORE) { add(OP_UPDATE); for (int k = 0; k < N; ++k) add(OP_CHANGE, k); }
-	if (opt.og & (OG_CORE | OG_IMM)) for (int k = 0; k < N; ++k) add(OP_IMM, k);
+	if (opt.og & OG_CORE) { add(OP_UPDATE); for (int k_i = 0, k = g_ids[0]; k_i < g_nids; ++k_i, k = g_ids[k_i < g_nids ? k_i : 0]) add(OP_CHANGE, k); }
+	if (opt.og & (OG_CORE | OG_IMM)) for (int k_i = 0, k = g_ids[0]; k_i < g_nids; ++k_i, k = g_ids[k_i < g_nids ? k_i : 0]) add(OP_IMM, k);
 	if (opt.og & OG_REACT) add(OP_REACT);
 	if (opt.og & OG_QUERY) add(OP_QUERY);
 #if VX_PAYLOAD
-	if (opt.og & OG_PAYLOAD) for (int k = 0; k < N; ++k) { add(OP_CHANGEW, k, 1); add(OP_IMMW, k, 1); if (opt.og & OG_PAYLOAD2) { add(OP_CHANGEW, k, 2); add(OP_IMMW, k, 2); } }
+	if (opt.og & OG_PAYLOAD) for (int k_i = 0, k = g_ids[0]; k_i < g_nids; ++k_i, k = g_ids[k_i < g_nids ? k_i : 0]) { add(OP_CHANGEW, k, 1); add(OP_IMMW, k, 1); if (opt.og & OG_PAYLOAD2) { add(OP_CHANGEW, k, 2); add(OP_IMMW, k, 2); } }
 #endif
 #if VX_MANUAL
 	if (opt.og & OG_MANUAL) { add(OP_ENTER); add(OP_EXIT); }
 #endif
 #if VX_HIST
-	if (opt.og & OG_REPLAY) { for (int k = 0; k < N; ++k) add(OP_REPLAY_T, k); add(OP_REPLAY_T_INV);
+	if (opt.og & OG_REPLAY) { for (int k_i = 0, k = g_ids[0]; k_i < g_nids; ++k_i, k = g_ids[k_i < g_nids ? k_i : 0]) add(OP_REPLAY_T, k); add(OP_REPLAY_T_INV);
 #if VX_MANUAL
-		for (int k = 0; k < N; ++k) add(OP_REPLAY_E, k);
+		for (int k_i = 0, k = g_ids[0]; k_i < g_nids; ++k_i, k = g_ids[k_i < g_nids ? k_i : 0]) add(OP_REPLAY_E, k);
 #endif
 	}
 #endif
 #if VX_SER
-	if (opt.og & OG_SERIAL) { add(OP_SAVE); for (int k = 0; k < N; ++k) add(OP_LOAD, k);
+	if (opt.og & OG_SERIAL) { add(OP_SAVE); for (int k_i = 0, k = g_ids[0]; k_i < g_nids; ++k_i, k = g_ids[k_i < g_nids ? k_i : 0]) add(OP_LOAD, k);
 #if VX_MANUAL
 		add(OP_LOAD, N);
 #endif
@@ -222,13 +223,13 @@ static void build_ops() {
 	if (opt.og & OG_LOG) { add(OP_ATTACH, 0); add(OP_ATTACH, 1); }
 #endif
 #if VX_PLANS
-	if (opt.og & OG_PLAN) { for (int o = 0; o < N; ++o) for (int d = 0; d < N; ++d) add(OP_PLAN_CHANGE, o, d); add(OP_PLAN_CLEAR);
+	if (opt.og & OG_PLAN) { for (int o_i = 0, o = g_ids[0]; o_i < g_nids; ++o_i, o = g_ids[o_i < g_nids ? o_i : 0]) for (int d_i = 0, d = g_ids[0]; d_i < g_nids; ++d_i, d = g_ids[d_i < g_nids ? d_i : 0]) add(OP_PLAN_CHANGE, o, d); add(OP_PLAN_CLEAR);
 #if VX_PAYLOAD
-		if (opt.og & OG_PAYLOAD) for (int o = 0; o < N; ++o) for (int d = 0; d < N; ++d) add(OP_PLAN_CHANGEW, o, d, 1);
+		if (opt.og & OG_PAYLOAD) for (int o_i = 0, o = g_ids[0]; o_i < g_nids; ++o_i, o = g_ids[o_i < g_nids ? o_i : 0]) for (int d_i = 0, d = g_ids[0]; d_i < g_nids; ++d_i, d = g_ids[d_i < g_nids ? d_i : 0]) add(OP_PLAN_CHANGEW, o, d, 1);
 #endif
 	}
 	if (opt.og & OG_PLAN_REMOVE) for (unsigned m = 1; m < (1u << TASK_CAP) && m < 64; ++m) add(OP_PLAN_REMOVE, static_cast<int>(m));
-	if (opt.og & OG_REPORT) for (int k = 0; k < N; ++k) { add(OP_SUCCEED, k); add(OP_FAIL, k); }
+	if (opt.og & OG_REPORT) for (int k_i = 0, k = g_ids[0]; k_i < g_nids; ++k_i, k = g_ids[k_i < g_nids ? k_i : 0]) { add(OP_SUCCEED, k); add(OP_FAIL, k); }
 #endif
 }
 
@@ -669,6 +670,7 @@ static int replay_main() {
 	if ((p = strstr(s, "pf="))) pf = static_cast<unsigned>(atoi(p + 3));
 	if ((p = strstr(s, "mf="))) mf = static_cast<unsigned>(strtoul(p + 3, nullptr, 10));
 	if ((p = strstr(s, "og="))) og = static_cast<unsigned>(strtoul(p + 3, nullptr, 10));
+	if ((p = strstr(s, "ids="))) { p += 4; g_nids = 0; while (*p && *p != ';' && g_nids < 8) { g_ids[g_nids++] = atoi(p); while (*p && *p != '.' && *p != ';') ++p; if (*p == '.') ++p; } }
 	if ((p = strstr(s, "st="))) { p += 3; for (int q = 0; q < 2 * N + 1 && *p && *p != ';'; ++q) { G.strat[q] = static_cast<uint8_t>(atoi(p)); while (*p && *p != '.' && *p != ';') ++p; if (*p == '.') ++p; } g_strategy_mode = true; }
 	p = strstr(s, "path="); if (!p) die("replay string without path");
 	p += 5;
@@ -722,6 +724,7 @@ int main(int argc, char** argv) {
 		else if ((v = val("--name"))) opt.name = v;
 		else if ((v = val("--replay"))) opt.replay = v;
 		else if ((v = val("--samples"))) opt.samples = atoi(v);
+		else if ((v = val("--ids"))) { g_nids = 0; for (const char* p = v; *p && g_nids < 8; ) { int k = atoi(p); if (k >= 0 && k < N) g_ids[g_nids++] = k; while (*p && *p != ',') ++p; if (*p == ',') ++p; } if (!g_nids) die("--ids: no valid id"); }
 		else if ((v = val("--copy-dev"))) opt.copy_dev = atoi(v);
 		else if ((v = val("--max-states"))) opt.max_states = strtoul(v, nullptr, 0);
 		else if (!strcmp(a, "--strategies")) opt.strategies = true;
